@@ -152,6 +152,15 @@ class Routes:
                         want = x * ratio**e
                         if not abs(got - want) <= 1e-11 * abs(want):
                             self.bad("UnitDatabase.Convert([(u,e)])", "value", case, {"e": e, "x": x, "got": got, "want": want})
+                        # the quantity type / category may come as a one-element list or tuple too
+                        for label, first in (("[qt]", [qt]), ("(category,)", (c,))):
+                            self.seen_routes.add("UnitDatabase.Convert(%s,[(u,e)])" % label)
+                            try:
+                                got2 = db.Convert(first, [(u, e)], [(v, e)], float(x))
+                                if not abs(got2 - want) <= 1e-11 * abs(want):
+                                    self.bad("UnitDatabase.Convert(%s,[(u,e)])" % label, "value", case, {"e": e, "x": x, "got": got2, "want": want})
+                            except Exception as ex:
+                                self.bad("UnitDatabase.Convert(%s,[(u,e)])" % label, "raised:%s" % type(ex).__name__, case, {"e": e, "x": x, "error": str(ex)[:160]})
 
         def array_routes():
             for n in lengths:
